@@ -811,3 +811,73 @@ M2('c11-asgi-accept-memoised', 'C11', 'R19', [
 M('c11-accept-from-memoised-headers-copy', 'C11', 'R19', RQ, _ACC_W, "        return self.headers.get('ACCEPT') or '*/*'\n", also=('C06',))
 # negative controls (exit 0): `self.get_header('Accept') or '*/*'`; `self.env.get('HTTP_ACCEPT') or '*/*'`; the value through a local;
 # (exit 2, not 1) a new `_cached_netloc` slot that negotiation does not read
+
+
+# ---- second preserving wave (k2-c11-1/2/3): "refactoring + break" mutants
+# k2-c11-2 extracted the two cache_clear() statements into Handlers._invalidate_resolver_cache(); R3 looks through the helper.
+_SET_CLEAR = ("        #   cached handler from the previous mapping, in case it was\n        #   replaced.\n"
+              "        self._resolve.cache_clear()  # type: ignore[attr-defined]\n")
+_DEL_CLEAR = ("        #   to a cached handler that was removed.\n        self._resolve.cache_clear()  # type: ignore[attr-defined]\n")
+_HELPER = ("\n    def _invalidate_resolver_cache(self) -> None:\n        self._resolve.cache_clear()  # type: ignore[attr-defined]\n")
+# the helper exists and __setitem__ calls it, __delitem__ forgot to
+M2('c11-k2-clear-helper-not-called-by-delitem', 'C11', 'R3', [
+    {'file': HD, 'old': _SET_CLEAR, 'new': "        #   replaced.\n        self._invalidate_resolver_cache()\n"},
+    {'file': HD, 'old': _DEL_CLEAR, 'new': "        #   to a cached handler that was removed.\n" + _HELPER}])
+# both call the helper, but the helper clears on one branch only
+M2('c11-k2-clear-helper-clears-conditionally', 'C11', 'R3', [
+    {'file': HD, 'old': _SET_CLEAR, 'new': "        #   replaced.\n        self._invalidate_resolver_cache()\n"},
+    {'file': HD, 'old': _DEL_CLEAR, 'new': "        #   to a cached handler that was removed.\n        self._invalidate_resolver_cache()\n"
+     "\n    def _invalidate_resolver_cache(self) -> None:\n        if self.data:\n            self._resolve.cache_clear()  # type: ignore[attr-defined]\n"}])
+# the helper returns before it clears
+M2('c11-k2-clear-helper-returns-early', 'C11', 'R3', [
+    {'file': HD, 'old': _SET_CLEAR, 'new': "        #   replaced.\n        self._invalidate_resolver_cache()\n"},
+    {'file': HD, 'old': _DEL_CLEAR, 'new': "        #   to a cached handler that was removed.\n        self._invalidate_resolver_cache()\n"
+     "\n    def _invalidate_resolver_cache(self) -> None:\n        return\n        self._resolve.cache_clear()  # type: ignore[attr-defined]\n"}])
+# negative controls (silent, preserving/k2-c11-2): both dunders call the helper; the helper calls a second helper that clears (depth 2)
+
+# k2-c11-3 named the wildcard literals (_WILDCARD = '*', _ANY_MEDIA_TYPE = '*/*'); R1 / R16 / R4 / R11 / R13 read a module-level
+# name bound once to a literal as its value.
+_CONSTS = {'file': MT, 'old': "\n\ndef _parse_param_old_stdlib", 'new': "\n_WILDCARD = '*'\n_ANY_MEDIA_TYPE = '*/*'\n\n\ndef _parse_param_old_stdlib"}
+# constants + the candidate-side wildcard test of the main type lost
+M2('c11-k2-wildcard-constant-candidate-side-dropped', 'C11', 'R1', [
+    _CONSTS,
+    {'file': MT, 'old': "        if self.main_type == '*' or media_type.main_type == '*':\n", 'new': "        if self.main_type == _WILDCARD:\n"},
+    {'file': MT, 'old': "        if self.subtype == '*' or media_type.subtype == '*':\n",
+     'new': "        if self.subtype == _WILDCARD or media_type.subtype == _WILDCARD:\n"}])
+# constants + the subtype compared with the wrong constant ('*/*' is never a subtype: the wildcard subtype no longer matches)
+M2('c11-k2-wildcard-constant-wrong-constant', 'C11', 'R1', [
+    _CONSTS,
+    {'file': MT, 'old': "        if self.main_type == '*' or media_type.main_type == '*':\n",
+     'new': "        if self.main_type == _WILDCARD or media_type.main_type == _WILDCARD:\n"},
+    {'file': MT, 'old': "        if self.subtype == '*' or media_type.subtype == '*':\n",
+     'new': "        if self.subtype == _ANY_MEDIA_TYPE or media_type.subtype == _ANY_MEDIA_TYPE:\n"}])
+# constants + the lone-wildcard workaround sees the raw (unstripped) member: R16 still finds the test through the constant
+M2('c11-k2-wildcard-constant-raw-member', 'C11', 'R16', [
+    _CONSTS,
+    {'file': MT, 'old': "    if full_type == '*':\n        full_type = '*/*'\n",
+     'new': "    if media_type.partition(';')[0] == _WILDCARD:\n        full_type = _ANY_MEDIA_TYPE\n"}])
+# the resolver's catch-all named by a constant that holds the wrong text: '*/*' is no longer answered with the default (R4)
+M2('c11-k2-resolver-any-constant-wrong-text', 'C11', 'R4', [
+    {'file': HD, 'old': "\nclass Handlers(", 'new': "\n_ANY_TYPE = '*'\n\n\nclass Handlers("},
+    {'file': HD, 'old': "            if media_type == '*/*' or not media_type:\n", 'new': "            if media_type == _ANY_TYPE or not media_type:\n"}])
+# negative controls (silent): preserving/k2-c11-3; `_ANY_TYPE = '*/*'` in handlers.py; `_Q = 'q'` for the three 'q' literals of
+# _MediaRange.parse; `_ACCEPT_ANYTHING = '*/*'` in request.py (C04 R8 of c04.py answers exit 2 "free name" there - not a C11 rule)
+
+# k2-c11-1 replaced the parameter-value loop by `if any(<genexp>): return _NOT_MATCHING` and inverted the elif/else arms
+_PLOOP = ("        for pname in matching:\n            if self.params[pname] != media_type.params[pname]:\n"
+          "                return self._NOT_MATCHING\n")
+# any() with the polarity lost
+M('c11-k2-any-genexp-negated', 'C11', 'R1', MT, _PLOOP,
+  "        if not any(self.params[pname] != media_type.params[pname] for pname in matching):\n            return self._NOT_MATCHING\n")
+# the mismatch flag computed by any() but a mismatch only lowers nothing: the real score is still returned
+M('c11-k2-any-genexp-mismatch-ignored', 'C11', 'R1', MT, _PLOOP,
+  "        mismatch = any(self.params[pname] != media_type.params[pname] for pname in matching)\n        if mismatch:\n            pass\n")
+# all(equal) spelled, arms swapped
+M('c11-k2-all-genexp-arms-swapped', 'C11', 'R1', MT, _PLOOP,
+  "        if all(self.params[pname] == media_type.params[pname] for pname in matching):\n            return self._NOT_MATCHING\n")
+# inverted arms of the main-type ladder + the concrete mismatch falls into the matching arm
+M('c11-k2-inverted-arms-mismatch-matches', 'C11', 'R1', MT,
+  "        elif self.main_type != media_type.main_type:\n            return self._NOT_MATCHING\n        else:\n            main_matches = 1\n",
+  "        elif self.main_type == media_type.main_type:\n            main_matches = 1\n        else:\n            main_matches = 0\n")
+# negative controls (silent): preserving/k2-c11-1; `mismatch = any(...)` / `if mismatch: return`; `[p for p in matching if a != b]` truthy -> return;
+# `if not all(a == b for ...): return`
